@@ -127,7 +127,9 @@ class TypedGen:
             c.data['A1'] = True
         if with_funcs:
             for fname in ['F1', 'F2', 'F3']:
-                if rnd.random() < 0.75:
+                if fname == 'F1' and rnd.random() < 0.55:
+                    self.make_templated_filter(fname)
+                elif rnd.random() < 0.75:
                     self.make_function(fname, logic=False)
             for pname in ['P1', 'P2']:
                 if rnd.random() < 0.5:
@@ -150,6 +152,32 @@ class TypedGen:
             return S(self.random_type(basics, depth - 1))
         n = rnd.choice([2, 2, 3])
         return T(*[self.random_type(basics, depth - 1) for _ in range(n)])
+
+    def make_templated_filter(self, name):
+        """F[a∈ℬ(R1)] = D{x∈a | Q y∈a (x R y)}: a templated term-function with two bound variables of its own"""
+        rnd = self.rnd
+        c = self.ctx
+        a, x, y = rnd.sample(self.names_pool, 3)
+        rel = rnd.choice([N('EQUAL', None, [N('ID_LOCAL', y), N('ID_LOCAL', x)]), N('NOTEQUAL', None, [N('ID_LOCAL', x), N('ID_LOCAL', y)]),
+                          N('IN', None, [N('ID_LOCAL', y), N('NT_ENUMERATION', None, [N('ID_LOCAL', x)])])])
+        cond = N(rnd.choice(['EXISTS', 'FORALL']), None, [N('ID_LOCAL', y), N('ID_LOCAL', a), rel])
+        if rnd.random() < 0.5:
+            # variant over a fixed base set: the argument is only read inside the loop over the function's own variable
+            base = rnd.choice(sorted(c.bases))
+            body = N('NT_DECLARATIVE_EXPR', None, [N('ID_LOCAL', x), N('ID_GLOBAL', base), cond])
+            arg = N('NT_ARG_DECL', None, [N('ID_LOCAL', a), N('BOOLEAN', None, [N('ID_GLOBAL', base)])])
+        else:
+            body = N('NT_DECLARATIVE_EXPR', None, [N('ID_LOCAL', x), N('ID_LOCAL', a), cond])
+            arg = N('NT_ARG_DECL', None, [N('ID_LOCAL', a), N('BOOLEAN', None, [N('ID_RADICAL', 'R1')])])
+        tree = N('PUNC_DEFINE', None, [N('ID_FUNCTION', name), N('NT_FUNC_DEFINITION', None, [N('NT_ARGUMENTS', None, [arg]), body])])
+        res = rt.check_expression(tree, c.ref())
+        if res['status'] != 'ok':
+            return
+        c.types[name] = res['type']
+        c.funcs[name] = res['args']
+        c.vclass[name] = 'value'
+        c.bodies[name] = tree
+        c.texts[name] = rg.render(tree, 'MATH')[0]
 
     def make_function(self, name, logic):
         rnd = self.rnd
@@ -178,6 +206,16 @@ class TypedGen:
         for attempt in range(6):
             if logic:
                 body = self.logic(env, 2)
+            elif args[0][1][0] == 's' and attempt < 3 and rnd.random() < 0.6:
+                # canonical shape: result has the type of the first argument and the body binds its own local,
+                # optionally calling an earlier function on it:  [a∈ℬ(T), ...] D{x∈a | cond}
+                a0, t0 = args[0]
+                decl, ext = self.binder(env, t0[1], allow_tuple=False)
+                cond = self.call_condition(env + ext) if rnd.random() < 0.7 else None
+                if cond is None:
+                    cond = self.logic(env + ext, 1)
+                dom = N('ID_LOCAL', a0) if rnd.random() < 0.7 else N('UNION', None, [N('ID_LOCAL', a0), N('ID_LOCAL', a0)])
+                body = N('NT_DECLARATIVE_EXPR', None, [decl, dom, cond])
             else:
                 target = rnd.choice([S(args[0][1][1]) if args[0][1][0] == 's' else None, args[0][1], None, None])
                 if target is None:
@@ -188,7 +226,9 @@ class TypedGen:
                     dom = self.expr(target, env, 1, 'NT_DECLARATIVE_EXPR')
                     if dom is not None:
                         decl, ext = self.binder(env, target[1])
-                        cond = self.logic(env + ext, 2)
+                        cond = self.call_condition(env + ext) if rnd.random() < 0.6 else None
+                        if cond is None:
+                            cond = self.logic(env + ext, 2)
                         body = N('NT_DECLARATIVE_EXPR', None, [decl, dom, cond])
                 if body is None:
                     body = self.expr(target, env, 2, parent=None)
@@ -563,6 +603,50 @@ class TypedGen:
                             outer_args[k] = call
                             return N('NT_FUNC_CALL', None, [N('ID_FUNCTION', name)] + outer_args)
                 return call
+        return None
+
+    def call_condition(self, env):
+        """a formula that calls an already defined term-function on the innermost local variable"""
+        rnd = self.rnd
+        c = self.ctx
+        names = [n for n in c.funcs if c.types[n] != LOGIC]
+        rnd.shuffle(names)
+        if not env:
+            return None
+        vname, vtype = env[-1]
+        var = N('ID_LOCAL', vname)
+        for name in names:
+            declared = c.funcs[name]
+            for k, (_an, at) in enumerate(declared):
+                for actual, actual_t in ((var, vtype), (N('NT_ENUMERATION', None, [var]), S(vtype)), (N('BOOL', None, [var]), S(vtype))):
+                    subst = {}
+                    if not rt.match_template(c.ref(), subst, at, actual_t):
+                        continue
+                    args = []
+                    ok = True
+                    for j, (_bn, bt) in enumerate(declared):
+                        if j == k:
+                            args.append(actual)
+                            continue
+                        for r in set(rt.radicals_in(bt)) - set(subst):
+                            subst[r] = rnd.choice([E(b) for b in c.bases] + [Z])
+                        a = self.expr(rt.substitute(bt, subst), env, 1, 'NT_FUNC_CALL')
+                        if a is None:
+                            ok = False
+                            break
+                        args.append(a)
+                    if not ok:
+                        continue
+                    call = N('NT_FUNC_CALL', None, [N('ID_FUNCTION', name)] + args)
+                    res = rt.substitute(c.types[name], subst)
+                    if rt.radicals_in(res):
+                        continue
+                    other = self.expr(res, env, 1, 'EQUAL')
+                    if other is None:
+                        continue
+                    if res[0] == 's' and rnd.random() < 0.5:
+                        return N(rnd.choice(['SUBSET_OR_EQ', 'NOTSUBSET']), None, [call, other])
+                    return N(rnd.choice(['EQUAL', 'NOTEQUAL']), None, [call, other])
         return None
 
     # ------------------------------------------------------------------ logic
